@@ -3,7 +3,7 @@ SPEC = {
     "lean_props": ["TunnoxModel.Props.C07"],
     "harness": {
         "pkg": "c07",
-        "shims": {"session": "internal/protocol/session"},
+        "shims": {"session": "internal/protocol/session", "adapter": "internal/protocol/adapter"},
         "runs": [{"args": [], "corpus": ""}],
     },
     "skip_model_prefix": ["par"],
@@ -16,7 +16,11 @@ SPEC = {
              "judged by the theorem's predicate. Exhaustive: all symmetry-reduced sequences over 3 connections x 2 clients "
              "(~45 operation instances incl. the split handshake) to depth 3 (quick) / 4 (thorough), with and without a "
              "connection limit; random histories of length 4..15 over 2-4 connections, 1-3 clients, limits 0-3, incl. "
-             "operations on unknown/closed connections. par cases: a prefix, then 2-3 blocks run on concurrent goroutines, "
+             "operations on unknown/closed connections. adp cases: the same operations with accept, packets and teardown going "
+             "through the real BaseAdapter.handleConnection read loop on a queue-fed transport (a loop whose transport is closed "
+             "or broken ends and runs cleanupConnection), exhaustive depth 2/3 and random. Every snapshot also asks the other "
+             "spellings (List, ListConnections, GetActiveConnections, GetControlConnectionInterface, "
+             "GetClientIDByConnectionID). par cases: a prefix, then 2-3 blocks run on concurrent goroutines, "
              "judged by the predicate only. non-trivial = at least one handshake and two non-accept operations; distinct = "
              "distinct case strings"),
     "trusted_base": [
@@ -27,6 +31,7 @@ SPEC = {
         "`if`/`range` headers (guards) of the registry functions as source text (all pinned by decide)",
         "differential harness /verif/harness/c07: fake net.Conn transports (closed/broken flags), auth-handler double that does "
         "exactly ServerAuthHandler's two field writes (SetClientID, SetAuthenticated) and then waits at a gate; shims "
+        "adapter.VerifHandleConnection (C01 shim: TcpAdapter.handleConnection on a given connection), VerifControlListLen, "
         "VerifCleanupStale, VerifUnregister, VerifListAuthenticated, VerifControlCount, VerifHasTunnelConn, VerifKickWithHook; "
         "CloudControlAPI double whose DisconnectClientIfMatch/DisconnectClient/EnsureClientOnline fail while a fault op runs",
         "each registry method holds ClientRegistry.mu for its whole body (Lock/Unlock positions are part of the pinned skeletons)",
